@@ -8,8 +8,10 @@ The data source is abstract: one pass of the loop covers the sequence numbers `l
 * block / header / tx-result subscriptions: the payload is never empty and `n ≥ 1`;
 * tx-receipt / EVM-event subscriptions (a contract filter): the range may hold NO matching data
   (`empty`); then nothing is posted and `lastProcessedseq` moves on IN MEMORY ONLY (no
-  `setLastPushSeq`) — the `.skip a b` event.  `n = 0` is possible there (first block of the range larger
-  than the size limit: `updateSeq = startSeq-1`, the loop does not advance).
+  `setLastPushSeq`) — the `.skip a b` event.  `runTask` itself does not advance when `getPushData` answers
+  `(nil, startSeq-1)` (`n = 0`, the `.stalled` event); which `(data, updateSeq)` the receipt / EVM-event
+  batch loop can answer is modelled by `batchNew` (after fix 87f57a6: never `n = 0`, never a matching block
+  left out) and `batchOld` (the loop before the fix, kept as a regression witness).
 Between the acknowledgement (`PostData` returned nil) and the record (`_ = setLastPushSeq`, error ignored)
 three things can happen (`After`): the record is written, the store write fails, the node crashes.
 -/
@@ -118,6 +120,50 @@ def In.noLoss : In → Bool
   | .seqUpdate _ _ _ _ .record => true
   | .seqUpdate _ _ _ _ _ => false
   | _ => true
+
+/-! ### the batch loop of getTxReceipts / getEVMEvent (which blocks of a range go into one payload) -/
+
+/-- one block of a range as the loop sees it: `none` — no matching transaction; `some size` — the size
+of its per-block message. -/
+abbrev Blk := Option Nat
+
+structure Batch where
+  total : Nat := 0          -- totalSize
+  incl : List Nat := []     -- offsets from startSeq of the blocks appended to the payload, in order
+  count : Nat := 0          -- actualIterCount (updateSeq = startSeq + count - 1)
+  deriving Repr, DecidableEq
+
+/-- the loop after fix 87f57a6: a matching block ends the batch iff something was appended before and it
+does not fit (`totalSize != 0 && totalSize+size >= maxSize`), else it is appended; other blocks advance. -/
+def batchNew (maxSize : Nat) : Batch → List Blk → Batch
+  | b, [] => b
+  | b, none :: rest => batchNew maxSize { b with count := b.count + 1 } rest
+  | b, some sz :: rest =>
+    if b.total ≠ 0 ∧ b.total + sz ≥ maxSize then b
+    else batchNew maxSize { total := b.total + sz, incl := b.incl ++ [b.count], count := b.count + 1 } rest
+
+/-- the loop before the fix: `if matching && totalSize+size < maxSize {append} else if totalSize+size >
+maxSize {break}; actualIterCount++` (a block without matching transactions has message size 0). -/
+def batchOld (maxSize : Nat) : Batch → List Blk → Batch
+  | b, [] => b
+  | b, none :: rest =>
+    if b.total > maxSize then b else batchOld maxSize { b with count := b.count + 1 } rest
+  | b, some sz :: rest =>
+    if b.total + sz < maxSize then
+      batchOld maxSize { total := b.total + sz, incl := b.incl ++ [b.count], count := b.count + 1 } rest
+    else if b.total + sz > maxSize then b
+    else batchOld maxSize { b with count := b.count + 1 } rest
+
+/-- the offsets of the matching blocks of a range. -/
+def matchPos (off : Nat) : List Blk → List Nat
+  | [] => []
+  | none :: rest => matchPos (off + 1) rest
+  | some _ :: rest => off :: matchPos (off + 1) rest
+
+/-- the notification input a batch result stands for: the range is cut to `count` entries and is empty
+iff nothing was appended. -/
+def In.ofBatch (latest : Int) (r : Batch) (ok : Bool) (after : After) : In :=
+  .seqUpdate latest r.count r.incl.isEmpty ok after
 
 /-! ### the specification: an acceptor over event traces, written from the property text -/
 
